@@ -329,7 +329,6 @@ func c13(c *Ctx) {
 			c.requireCross(load.FuncName(fn)+": sources[wid]= after Watch", mu, okEdges(watch), "ok(c.ctrl.Watch(src))")
 			c.R.Check(flow.Strict.Any(cfgx.CallArgs(watch)[0], func(v ssa.Value) bool { return v == mu.Value }), load.FuncName(fn)+": stores started source", c.pos(mu.Pos()), "the source recorded is the one passed to Watch", "the source recorded is not the one that was started")
 			// not-already-watching: exists lookup ok==false edge or activeInformer==false edge, in the write-locked loop
-			var notWatching []cfgx.Edge
 			wl := map[ssa.Instruction]bool{}
 			for _, a := range w.res[fn].Accesses {
 				if a.Field == "engine.controller.sources" && !a.Write && a.Weakest == locks.W {
@@ -337,6 +336,7 @@ func c13(c *Ctx) {
 				}
 			}
 			loop := cfgx.LoopOf(mu.Block())
+			var watching []ssa.Value // the conjuncts of "already watching", as tested under the write lock
 			for _, b := range fn.Blocks {
 				for _, in := range b.Instrs {
 					lk, ok := in.(*ssa.Lookup)
@@ -346,16 +346,15 @@ func c13(c *Ctx) {
 					if lk.CommaOk && wl[lk] {
 						for _, r := range *lk.Referrers() {
 							if ex, ok := r.(*ssa.Extract); ok && ex.Index == 1 {
-								_, f := cfgx.CondEdges(ex)
-								notWatching = append(notWatching, f...)
+								watching = append(watching, ex)
 							}
 						}
 					} else if !lk.CommaOk && isBoolMap(lk.X.Type()) {
-						_, f := cfgx.CondEdges(lk)
-						notWatching = append(notWatching, f...)
+						watching = append(watching, lk)
 					}
 				}
 			}
+			notWatching := boolConjFalseEdges(fn, watching)
 			c.requireCross(load.FuncName(fn)+": sources[wid]= only if not watching", mu, notWatching, "watchExists==false or activeInformer[gvk]==false (under the write lock)")
 			// same key looked up and stored
 			c.R.Check(sameKeyLookup(fn, mu), load.FuncName(fn)+": same wid", c.pos(mu.Pos()), "the id looked up is the id stored", "the watch id that is checked differs from the one that is stored")
@@ -634,9 +633,14 @@ func sameAccessValue(a, b ssa.Value) bool {
 		if la.X == lb.X {
 			return true
 		}
-		return sameAccess(la, lb)
+		if sameAccess(la, lb) {
+			return true
+		}
 	}
-	return false
+	// the same variable read through copies (a by-value parameter of an inlined helper)
+	ra, pa, _ := flow.AccessPathC(a)
+	rb, pb, _ := flow.AccessPathC(b)
+	return ra == rb && pa == pb && ra != nil
 }
 
 func deref(t types.Type) types.Type {
